@@ -44,6 +44,7 @@ struct Block {
   // block table bookkeeping
   bool published;          // became the current table (its creator retired the previous one)
   uint64_t superseded_step;  // step at which a later table replaced it (0 = still current / never published)
+  int superseded_by;         // op index of the growth that replaced it
   // element slots (element blocks only)
   uint8_t* slot;  // per element: bit0 constructed, bit1 destroyed, bit2 seen by the harness
   size_t nslots;
@@ -157,6 +158,8 @@ struct OpRec {
   bool allocated = false;  // entered the growth path (allocated a block table)
   int table_block = -1;    // registry index of that table
   bool lost_cas = false;
+  bool in_retire = false;  // past its growth CAS, inside RetireList::retire
+  bool stalled = false;    // (VF_ALLOW_KNOWN only) the clock leapt while this call sat inside retire
 };
 
 struct SnapRec {
@@ -170,8 +173,10 @@ constexpr int MAX_INDEX = 64;
 struct World {
   std::vector<OpRec> ops;
   int cur_op[dsched::MAXT];
-  bool in_vec[dsched::MAXT];
+  bool in_vec[dsched::MAXT];   // inside a vector call and not inside a harness callback (allocation attribution)
+  bool in_call[dsched::MAXT];  // inside a vector call
   int inflight = 0;  // vector calls in flight
+  bool concurrent_phase = false;
   int64_t jitter_used = 0;
   bool dying = false;
   size_t block_size = 1;
@@ -189,6 +194,22 @@ struct HarnessScope {  // harness code running inside a vector call (callbacks):
   HarnessScope() : t(cur_tid()), saved(W ? W->in_vec[t] : false) { if (W) W->in_vec[t] = false; }
   ~HarnessScope() { if (W) W->in_vec[t] = saved; }
 };
+
+// Known genuine defect (see the report): RetireList::retire() reads the clock once, before its CAS loop. A thread
+// descheduled for >= one 64 s unit between that read and the CAS that finally succeeds pushes a stale timestamp on top
+// of entries other threads retired meanwhile: the next retire()/gc() then frees tables that were superseded seconds ago
+// (witness: corpus/c04_vector/known_stale_retire_timestamp.replay.json, replay with VF_ALLOW_KNOWN=c04stall).
+// Guard (default on): the clock never leaps while any vector call is in flight, which is also what DESIGN.md's
+// conservative Pre excludes. VF_ALLOW_KNOWN=1 or VF_ALLOW_KNOWN=c04stall removes the guard: leaps are then generated
+// while a thread sits inside retire(), and the literal "64 s after the growth that superseded it" oracle is active.
+bool known_stale_retire_timestamp() {
+  static int v = -1;
+  if (v < 0) {
+    const char* e = getenv("VF_ALLOW_KNOWN");
+    v = (e && (e[0] == '1' || strstr(e, "c04stall"))) ? 0 : 1;
+  }
+  return v == 1;
+}
 
 // Earliest moment at which a table designated by a snapshot taken at `taken_step` may be freed: 64 s after
 // the begin of the earliest growth call that ended after the snapshot was taken (DESIGN.md C04 "Pre").
@@ -226,8 +247,12 @@ void on_tracked_alloc(Block& b) {
     Block& nt = g_blocks[op.table_block];
     if (!nt.published) {
       nt.published = true;
-      if (W->current_table >= 0) g_blocks[W->current_table].superseded_step = dsched::step() + 1;
+      if (W->current_table >= 0) {
+        g_blocks[W->current_table].superseded_step = dsched::step() + 1;
+        g_blocks[W->current_table].superseded_by = b.alloc_op;
+      }
       W->current_table = op.table_block;
+      op.in_retire = true;
     }
   }
 }
@@ -270,6 +295,22 @@ void on_tracked_free(Block& b, size_t sized) {
                      "block table %p freed by op%d (%s, T%d) at t=%.3fs; it was superseded at step %lu and a snapshot taken just before "
                      "stays usable until t=%.3fs",
                      (void*)b.lo, opi, op_name[op.kind], op.thread, now / 1e9, (unsigned long)b.superseded_step, lim / 1e9);
+      // literal reading of the property (not the conservative Pre): 64 s after the growth that superseded it.
+      // Differs from the check above only when another growing call was stalled inside retire() meanwhile.
+      int64_t lit = W->ops[(size_t)b.superseded_by].begin_time + COOLING_NS;
+      if (!known_stale_retire_timestamp() && now < lit) {
+        char dump[1500];
+        size_t off = 0;
+        for (size_t i = 0; i < W->ops.size() && off + 80 < sizeof dump; i++) {
+          const OpRec& o = W->ops[i];
+          off += (size_t)snprintf(dump + off, sizeof dump - off, " op%zu:T%d:%s[t=%.0f,steps %lu..%lu%s]", i, o.thread, op_name[o.kind], o.begin_time / 1e9,
+                                  (unsigned long)o.begin_step, (unsigned long)o.end_step, o.allocated ? ",grew" : "");
+        }
+        dsched::fail("cooling-period-literal",
+                     "block table %p freed by op%d (%s, T%d) at t=%.3fs (step %lu) although the growth that superseded it (op%d) began at t=%.3fs;%s",
+                     (void*)b.lo, opi, op_name[op.kind], op.thread, now / 1e9, (unsigned long)dsched::step(), b.superseded_by,
+                     W->ops[(size_t)b.superseded_by].begin_time / 1e9, dump);
+      }
     }
     return;
   }
@@ -370,15 +411,18 @@ struct Call {
     w.ops.push_back(r);
     w.cur_op[t] = idx;
     w.in_vec[t] = true;
+    w.in_call[t] = true;
     w.inflight++;
   }
   ~Call() {
     World& w = *W;
     w.in_vec[t] = false;
+    w.in_call[t] = false;
     w.inflight--;
     OpRec& r = w.ops[(size_t)idx];
     r.end_step = dsched::step();
     r.finished = true;
+    r.in_retire = false;
     if (r.lost_cas) w.lost_cas++;
   }
 };
@@ -427,6 +471,12 @@ struct Runner {
     // the table must be alive right now: we are about to read its size
     if (Block* b = find_block_at(r.table)) {
       if (b->freed) dsched::fail("use-after-free", "%s returned a snapshot of block table %p which is already freed", via, (void*)r.table);
+      // With stale reads the acquire load may legally return a table that was superseded a moment ago: such a
+      // snapshot is as good as one taken just before that growth, not better.
+      if (b->superseded_step && b->superseded_step - 1 < r.taken_step) {
+        r.taken_step = b->superseded_step - 1;
+        dsched::label("snapshot_of_superseded_table");
+      }
     }
     r.size = s.size();
     if (r.size < min_size) dsched::fail("reserve", "%s: snapshot size %zu < requested %zu", via, r.size, min_size);
@@ -434,6 +484,14 @@ struct Runner {
     w.all_snaps.push_back(r);
     ts[thread].held[slot].s = s;
     ts[thread].held[slot].rec = (int)w.all_snaps.size() - 1;
+  }
+
+  // (VF_ALLOW_KNOWN only) a call that sat inside retire() while the clock leapt was stalled for longer than
+  // the design allows for a call in flight: what it returns is not checked
+  bool stalled(int op_index) {
+    if (!W->ops[(size_t)op_index].stalled) return false;
+    dsched::label("stalled_call_not_checked");
+    return true;
   }
 
   // Pre for using a held snapshot now
@@ -445,10 +503,13 @@ struct Runner {
     switch (op.kind) {
       case O_ENSURE: {
         Elem* e;
+        int ci;
         {
           Call c(thread, O_ENSURE);
+          ci = c.idx;
           e = &v->ensure(op.a);
         }
+        if (stalled(ci)) break;
         check_element(e, op.a, "ensure");
         if (op.a + 1 > me.acc) me.acc = op.a + 1;
         break;
@@ -488,10 +549,13 @@ struct Runner {
       case O_RSNAPSHOT: {
         uint64_t st = dsched::step();
         Snap s;
+        int ci;
         {
           Call c(thread, O_RSNAPSHOT);
+          ci = c.idx;
           s = v->reserved_snapshot(op.a);
         }
+        if (stalled(ci)) { me.held[op.slot].rec = -1; break; }
         record_snapshot(thread, op.slot, s, st, op.a, "reserved_snapshot");
         if (op.a > me.acc) me.acc = op.a;
         break;
@@ -531,27 +595,33 @@ struct Runner {
         std::vector<const Elem*> got;
         Elem value;  // harness-owned (not inside a vector block)
         std::vector<Src> src(op.b);
+        int ci;
         {
           Call c(thread, op.kind);
+          ci = c.idx;
           w.collect[c.t] = &got;
           if (op.kind == O_FILL) v->fill_n(op.a, op.b, value);
           else v->copy_n(src.data(), op.b, op.a);
           w.collect[c.t] = nullptr;
         }
+        if (stalled(ci)) break;
         visit_range_check(got, op.a, op.a + op.b, op.kind == O_FILL ? "fill_n" : "copy_n");
         if (op.a + op.b > me.acc) me.acc = op.a + op.b;
         break;
       }
       case O_FOREACH: {
         std::vector<const Elem*> got;
+        int ci;
         {
           Call c(thread, O_FOREACH);
+          ci = c.idx;
           v->for_each(op.a, op.a + op.b, [&](Elem* it, Elem* end) {
             HarnessScope hs;
             for (; it != end; ++it) got.push_back(it);
             dsched::point();  // a preemption may fall between two segments
           });
         }
+        if (stalled(ci)) break;
         visit_range_check(got, op.a, op.a + op.b, "for_each");
         if (op.a + op.b > me.acc) me.acc = op.a + op.b;
         break;
@@ -578,9 +648,23 @@ struct Runner {
       }
       case O_ADVANCE: {
         int64_t dt = op.dt;
-        if (w.inflight > 0) {
-          // somebody is inside a vector call: a stall of a cooling period inside a call is outside the
-          // component's design envelope (time-based reclamation); only a bounded jitter is applied
+        bool calls_in_flight = w.inflight > 0;
+        // known_stale_retire_timestamp guard removed (VF_ALLOW_KNOWN): the clock may also leap while a thread sits
+        // inside RetireList::retire (after its growth CAS), and the literal reading of the property is checked.
+        if (!known_stale_retire_timestamp() && !dsched::weak_mode()) {
+          calls_in_flight = false;
+          for (int t = 0; t < dsched::MAXT; t++)
+            if (w.in_call[t] && !w.ops[(size_t)w.cur_op[t]].in_retire) calls_in_flight = true;
+          if (!calls_in_flight && dt > 2 * SEC)
+            for (int t = 0; t < dsched::MAXT; t++)
+              if (w.in_call[t]) w.ops[(size_t)w.cur_op[t]].stalled = true;
+        }
+        if (calls_in_flight || (w.concurrent_phase && dsched::weak_mode())) {
+          // Somebody is inside a vector call: a stall of a cooling period inside a call is outside the
+          // component's design envelope (time-based reclamation); only a bounded jitter is applied.
+          // Same with stale reads enabled: the memory model puts no time bound on staleness, the component
+          // assumes visibility within far less than 64 s, so virtual time must not leap while threads may
+          // still hold stale views (the prologue / epilogue are ordered with every thread by create / join).
           if (dt > 2 * SEC) dt = 2 * SEC;
           if (w.jitter_used + dt > JITTER_BUDGET_NS) break;
           w.jitter_used += dt;
@@ -614,8 +698,9 @@ void describe_op(const Op& op, bool first) {
 
 Op gen_op(Chooser& c, size_t bs) {
   static const int kinds[] = {O_ENSURE, O_ENSURE, O_ENSURE, O_RESERVE, O_INDEX, O_SNAPSHOT, O_RSNAPSHOT, O_SNAP_READ, O_SNAP_READ,
-                              O_SNAP_FOREACH, O_FILL, O_COPY, O_FOREACH, O_CONST_FOREACH, O_GC, O_GC, O_ADVANCE, O_ADVANCE};
-  static const int64_t jumps[] = {SEC / 10, 1 * SEC, 2 * SEC, 30 * SEC, 62 * SEC, 63 * SEC, 64 * SEC, 65 * SEC, 100 * SEC, 127 * SEC, 128 * SEC, 129 * SEC, 200 * SEC};
+                              O_SNAP_FOREACH, O_FILL, O_COPY, O_FOREACH, O_CONST_FOREACH, O_GC, O_GC, O_ADVANCE, O_ADVANCE, O_ADVANCE};
+  static const int64_t jumps[] = {SEC / 10, 1 * SEC, 2 * SEC, 30 * SEC, 62 * SEC, 63 * SEC, 64 * SEC, 65 * SEC, 100 * SEC, 127 * SEC, 128 * SEC, 129 * SEC,
+                                  129 * SEC, 200 * SEC, 200 * SEC, 300 * SEC};
   Op op{};
   op.kind = c.pick(kinds);
   size_t maxidx = bs * 6;
@@ -650,7 +735,7 @@ void run_with(Chooser& c, size_t hint, bool custom_ctor) {
   w.block_size = r.bs;
 
   // optional single-threaded prologue
-  int pre = (int)c.below(4);
+  int pre = (int)c.below(6);
   dsched::describe(" pre[");
   for (int i = 0; i < pre; i++) {
     Op op = gen_op(c, r.bs);
@@ -658,10 +743,10 @@ void run_with(Chooser& c, size_t hint, bool custom_ctor) {
     r.run_op(0, op);
   }
   dsched::describe("]");
-  int nthreads = c.range(2, 4);
+  int nthreads = c.range(2, vf::thorough() ? 6 : 4);
   std::vector<std::vector<Op>> plan((size_t)nthreads);
   for (int t = 0; t < nthreads; t++) {
-    int nops = c.range(1, 5);
+    int nops = c.range(1, vf::thorough() ? 8 : 5);
     dsched::describe(" T%d[", t + 1);
     for (int i = 0; i < nops; i++) {
       Op op = gen_op(c, r.bs);
@@ -671,7 +756,7 @@ void run_with(Chooser& c, size_t hint, bool custom_ctor) {
     }
     dsched::describe("]");
   }
-  int post = (int)c.below(4);
+  int post = (int)c.below(6);
   std::vector<Op> epilogue;
   dsched::describe(" post[");
   for (int i = 0; i < post; i++) {
@@ -683,11 +768,13 @@ void run_with(Chooser& c, size_t hint, bool custom_ctor) {
   dsched::describe("%s]", unsafe_gc ? " unsafe_gc" : "");
 
   std::vector<std::thread> threads;
+  w.concurrent_phase = true;
   for (int t = 0; t < nthreads; t++)
     threads.emplace_back([&, t] {
       for (auto& op : plan[(size_t)t]) r.run_op(t + 1, op);
     });
   for (auto& th : threads) th.join();
+  w.concurrent_phase = false;
 
   // epilogue on thread 0, which now also holds the snapshots of every thread
   for (auto& op : epilogue) r.run_op(0, op);
@@ -793,6 +880,7 @@ void run_case(Chooser& c) {
   World* world = new World();
   memset(world->cur_op, 0, sizeof world->cur_op);
   memset(world->in_vec, 0, sizeof world->in_vec);
+  memset(world->in_call, 0, sizeof world->in_call);
   memset(world->addr_of, 0, sizeof world->addr_of);
   g_nblocks = 0;
   W = world;
@@ -842,6 +930,7 @@ int main(int argc, char** argv) {
   t.property_id = "C04";
   t.run_case = run_case;
   t.tune = tune;
+  t.prog_len = vf::thorough() ? 512 : 192;
   t.nontrivial_rule = "some thread lost a growth CAS (gave back its speculative blocks / table), or a retire list actually expired (a block table was freed by a retire/gc call)";
   return vf::main_driver(argc, argv, t);
 }
